@@ -27,6 +27,8 @@ var c03Kinds = []ruleKind{
 	// facts changed ONLY through a slice element / a map entry (no plain variable assignment in the action)
 	{"F.Arr[0] < 2", []string{"F.Arr[0] = F.Arr[0] + 1"}},
 	{`F.M["a"] < 1 && F.Arr[0] > 0`, []string{`F.M["a"] = F.M["a"] + 1`}},
+	// Complete() in the MIDDLE of the action list: "applied completely" also holds for the last rule of a run
+	{"F.I < 3", []string{"F.I = F.I + 1", "Complete()", "F.B = !F.B", "F.Act(%d)"}},
 }
 
 func mkRule(name string, k ruleKind, id int) *grl.Rule {
@@ -236,6 +238,6 @@ func C03(rep *ev.Reporter, tier string) {
 		}
 	}
 	RunFamily(rep, gen, 4000, bud, judgeC03)
-	rep.Coverage["rule"] = "every rule set of k=2 (all kind pairs x all salience pairs) and k=3 (all kind triples x salience triples) rules over 7 rule kinds (quick: 5 of them in triples) whose actions change which rules are satisfied next, two of them changing facts only through a slice element / map entry; the fired rule is compared with the maximum over the conflict set the reference evaluator recomputes on the current facts AND with the maximum over the candidates the engine reported; per program every initial world x every rule-iteration order at every cycle (state-pruned). Non-trivial: a firing chosen among >=2 candidates with >=2 distinct saliences."
+	rep.Coverage["rule"] = "every rule set of k=2 (all kind pairs x all salience pairs) and k=3 (all kind triples x salience triples) rules over 8 rule kinds (quick: 5 of them in triples) whose actions change which rules are satisfied next, two of them changing facts only through a slice element / map entry, one calling Complete() in the middle of its action list; the fired rule is compared with the maximum over the conflict set the reference evaluator recomputes on the current facts AND with the maximum over the candidates the engine reported; per program every initial world x every rule-iteration order at every cycle (state-pruned). Non-trivial: a firing chosen among >=2 candidates with >=2 distinct saliences."
 	rep.Assumptions = append(rep.Assumptions, "saliences written in decimal/hex/octal/negative spellings; model salience comes from the generator, not from the engine's parse", "rule order controlled through the overlay hook verifhook.Order (all k! orders per cycle)")
 }
